@@ -74,7 +74,7 @@ typedef struct rt_config_s {
 	/* fault injection for the modelled futex: fault[i] applies to the i-th FUTEX_WAIT */
 	const uint8_t *futex_faults; /* 0 none, 1 EINTR, 2 EAGAIN, 3 premature ETIMEDOUT (timed waits only), 4 spurious 0 */
 	size_t nfutex_faults;
-	/* allocation fault: fail the k-th (1-based) sim_malloc whose call site file ends with alloc_fail_file (NULL: any) */
+	/* allocation fault: fail the k-th (1-based) sim_malloc whose call site file ends with alloc_fail_file (NULL: any; several suffixes separated by '|') */
 	int alloc_fail_k;
 	const char *alloc_fail_file;
 	int life_off;            /* 1: freed / dead-stack accesses are not judged (properties that do not own them) */
@@ -107,6 +107,7 @@ typedef struct rt_stats_s {
 	uint64_t trace_hash;
 	uint64_t frozen;         /* threads frozen by FREEZE */
 	uint64_t allocs;
+	uint64_t allocs_matching; /* allocations whose call site matches alloc_fail_file */
 	uint64_t alloc_failed;
 	int budget_exceeded;
 } rt_stats;
@@ -134,6 +135,7 @@ void rt_point (void);                            /* plain scheduling point */
 void rt_fail (int kind, const char *sig, const char *fmt, ...) __attribute__((format(printf, 3, 4)));
 void rt_gate_wait (volatile int *gate);          /* harness-level blocking until *gate != 0; never a verdict */
 void rt_thaw_all (void);
+int rt_any_runnable (void);                      /* some thread (or the clock) can move */
 int rt_thread_finished (int tid);
 int rt_thread_blocked (int tid);                 /* 1: blocked on sem/futex, 2: frozen, 3: gate, 4: spinning (livelock), 0: no */
 int rt_thread_sem_sleeps (int tid);              /* number of times tid blocked on its semaphore since rt_sem_sleeps_reset */
